@@ -21,6 +21,14 @@
     (section "The keep-alive loop and the reader": `KConn`, `drain`, `nextK`, `runK`).  While the round trip to the origin is in progress nothing reads the client
     socket, so whatever read deadline is armed cannot fire; `WriteTimeout` covers only the writing of the
     response.  Hence: no limit applies while the proxy waits for the origin.
+  * A request BODY is read by the round trip (the transport copies it to the origin) under the
+    whole-request deadline `t0 + ReadTimeout`.  When the body is still incomplete at that instant the read
+    fails with a time-out, `roundTrip` returns it as ITS error, `writeErrorResponse` answers
+    `504 Gateway Timeout` ("timed out connecting to remote host": the origin is blamed) WITHOUT `Connection:
+    close`, and `handleLoop` comes round: `readRequest` arms the idle deadline — the connection is NOT closed
+    at `t0 + ReadTimeout`, it is idle from that instant and closed `idleTimeout()` later (bytes of the
+    unfinished body that arrive meanwhile are read as the head of a next request).  `settle` below; open
+    finding F49.
   * `writeResponse`: `SetWriteDeadline(now + WriteTimeout)` is its FIRST statement (the instant `writeStart`:
     the origin's response head — or the dialled CONNECT target, or the proxy's own error response — is at
     hand) and the deadline is lifted (`SetWriteDeadline(zero)`) when it returns.  It is ONE absolute instant
@@ -143,6 +151,9 @@ inductive Ev
   | respStart           -- the origin's response head (the dialled tunnel, an error response) is at hand:
                         -- `writeResponse` is entered — the instant `writeStart`
   | tunnelUp            -- the 2xx to CONNECT / the 101 has been written: `bicopy` begins
+  | peeked              -- a byte of a request body that its reader only PEEKS: the first byte of the CRLF that
+                        -- ends a chunked body (`body.readTrailer` peeks two).  It completes nothing and, when the
+                        -- body read is abandoned, it is still in the bufio reader (only the loop `runK` sees it)
 deriving DecidableEq, Repr
 
 /-- after `http.ReadRequest` returned at `t`: the deadline becomes `wholeReqDeadline` (anchored at the first
@@ -176,19 +187,41 @@ inductive Outcome
   | stays (c : Conn)                              -- still open, in state `c`, with no deadline armed
 deriving DecidableEq, Repr
 
+/-- F49.  The state of a connection looked at at the instant `u`: a request body still incomplete at its
+    deadline `d = t0 + ReadTimeout ≤ u` has been answered `504 Gateway Timeout` at `d` — the failed read is
+    reported by the round trip as the origin's time-out — and the connection, NOT closed, is idle from `d`
+    (`readRequest` arms the idle deadline when `handleLoop` comes round).  Every other deadline closes. -/
+def settle (L : Limits) (c : Conn) (u : Nat) : Conn :=
+  match c.phase, c.deadline with
+  | .body, some d => if d ≤ u then enter L .idle d else c
+  | _, _ => c
+
+/-- `settle` when the peers do nothing more: a body deadline that is armed will expire -/
+def settleEnd (L : Limits) (c : Conn) : Conn :=
+  match c.phase, c.deadline with
+  | .body, some d => enter L .idle d
+  | _, _ => c
+
+/-- the instant at which a body read is abandoned and answered with 504 when the state is looked at at `u` -/
+def bodyTimeout (c : Conn) (u : Nat) : Option Nat :=
+  match c.phase, c.deadline with
+  | .body, some d => if d ≤ u then some d else none
+  | _, _ => none
+
 /-- Run a connection over a script of timed events; after the last event the peers do nothing more.
     An event that lies before the instant the current phase began (bytes already waiting in the socket
     buffer) is seen at that instant. -/
 def run (S : Stacking) (L : Limits) : Conn → List (Nat × Ev) → Outcome
   | c, [] =>
-    match c.deadline with
-    | some d => .closed d c.phase c.anchor
-    | none => .stays c
+    match (settleEnd L c).deadline with
+    | some d => .closed d (settleEnd L c).phase (settleEnd L c).anchor
+    | none => .stays (settleEnd L c)
   | c, (t, e) :: rest =>
-    match c.deadline with
-    | some d => if d ≤ max t c.anchor then .closed d c.phase c.anchor
-                else run S L (next S L c (max t c.anchor) e) rest
-    | none => run S L (next S L c (max t c.anchor) e) rest
+    match (settle L c (max t c.anchor)).deadline with
+    | some d => if d ≤ max t c.anchor then
+                  .closed d (settle L c (max t c.anchor)).phase (settle L c (max t c.anchor)).anchor
+                else run S L (next S L (settle L c (max t c.anchor)) (max t c.anchor) e) rest
+    | none => run S L (next S L (settle L c (max t c.anchor)) (max t c.anchor) e) rest
 
 /-- events that are no progress in a phase: stray bytes of an incomplete PROXY header, handshake record,
     request head or body.  In `idle` and `mitmPeek` the very first byte is progress. -/
@@ -343,26 +376,56 @@ def drain (S : Stacking) (L : Limits) (t : Nat) : Conn → List Ev → KConn
 /-- transition of the loop on an event observed at `t` -/
 def nextK (S : Stacking) (L : Limits) (k : KConn) (t : Nat) (e : Ev) : KConn :=
   if notReading k.conn.phase && sentByClient e then ⟨k.conn, k.ahead ++ [e]⟩
+  else if k.conn.phase == .body && e == .peeked then ⟨k.conn, k.ahead ++ [.data]⟩
   else drain S L t (next S L k.conn t e) k.ahead
+
+/-- `settle` for the loop (F49): the body read was abandoned at `d` and answered; `handleLoop` comes round at
+    `d` and `readRequest` finds what the body reader left in the reader — a peeked byte is read as the first
+    byte of a next request head: `Peek(1)` returns at once, the HEADER deadline is armed at `d` -/
+def settleK (S : Stacking) (L : Limits) (k : KConn) (u : Nat) : KConn :=
+  match bodyTimeout k.conn u with
+  | some d => drain S L d (enter L .idle d) k.ahead
+  | none => k
+
+def settleEndK (S : Stacking) (L : Limits) (k : KConn) : KConn :=
+  match k.conn.phase, k.conn.deadline with
+  | .body, some d => drain S L d (enter L .idle d) k.ahead
+  | _, _ => k
 
 /-- `run` for the loop (the same clock discipline: an event is seen no earlier than the phase began) -/
 def runK (S : Stacking) (L : Limits) : KConn → List (Nat × Ev) → Outcome
   | k, [] =>
-    match k.conn.deadline with
-    | some d => .closed d k.conn.phase k.conn.anchor
-    | none => .stays k.conn
+    match (settleEndK S L k).conn.deadline with
+    | some d => .closed d (settleEndK S L k).conn.phase (settleEndK S L k).conn.anchor
+    | none => .stays (settleEndK S L k).conn
   | k, (t, e) :: rest =>
-    match k.conn.deadline with
-    | some d => if d ≤ max t k.conn.anchor then .closed d k.conn.phase k.conn.anchor
-                else runK S L (nextK S L k (max t k.conn.anchor) e) rest
-    | none => runK S L (nextK S L k (max t k.conn.anchor) e) rest
+    match (settleK S L k (max t k.conn.anchor)).conn.deadline with
+    | some d => if d ≤ max t k.conn.anchor then
+                  .closed d (settleK S L k (max t k.conn.anchor)).conn.phase (settleK S L k (max t k.conn.anchor)).conn.anchor
+                else runK S L (nextK S L (settleK S L k (max t k.conn.anchor)) (max t k.conn.anchor) e) rest
+    | none => runK S L (nextK S L (settleK S L k (max t k.conn.anchor)) (max t k.conn.anchor) e) rest
+
+/-- the instants at which, along `runK`, the read of a request body is abandoned and answered with
+    `504 Gateway Timeout` (F49) -/
+def timeoutsK (S : Stacking) (L : Limits) : KConn → List (Nat × Ev) → List Nat
+  | k, [] =>
+    match k.conn.phase, k.conn.deadline with
+    | .body, some d => [d]
+    | _, _ => []
+  | k, (t, e) :: rest =>
+    let pre := (bodyTimeout k.conn (max t k.conn.anchor)).toList
+    match (settleK S L k (max t k.conn.anchor)).conn.deadline with
+    | some d => if d ≤ max t k.conn.anchor then pre
+                else pre ++ timeoutsK S L (nextK S L (settleK S L k (max t k.conn.anchor)) (max t k.conn.anchor) e) rest
+    | none => pre ++ timeoutsK S L (nextK S L (settleK S L k (max t k.conn.anchor)) (max t k.conn.anchor) e) rest
 
 /-- nothing is sent ahead in a script (decided along the run): the loop and the plain automaton coincide -/
 def noWriteAhead (S : Stacking) (L : Limits) : Conn → List (Nat × Ev) → Bool
   | _, [] => true
   | c, (t, e) :: rest =>
-    !(notReading c.phase && sentByClient e) &&
-      noWriteAhead S L (next S L c (max t c.anchor) e) rest
+    !(notReading (settle L c (max t c.anchor)).phase && sentByClient e) &&
+      !((settle L c (max t c.anchor)).phase == .body && e == .peeked) &&
+      noWriteAhead S L (next S L (settle L c (max t c.anchor)) (max t c.anchor) e) rest
 
 /-! ### A variant that is NOT the code: deadlines armed only when the reader is empty
 
